@@ -460,6 +460,21 @@ def r7_bare_global_names_cannot_be_captured_by_locals(ctx):
     always_fresh = any(not any(isinstance(x, ast.If) for x in P.ancestors(a) if P.contains(fa, x) and x is not fa) for a in gens)
     ctx.ob("C10.R7", f"{GEN}::__fn_args_to_py_ast::parameters keep their munged source names (fresh only on request): {not always_fresh}", GEN, fa.lineno, True,
            "informational: decides which of the two protections is required")
+    # (A0) that protection only works for Python locals the symbol table knows about: every parameter
+    # name handed to the Python `def` is either the name registered for the Lisp local, or recorded
+    # separately -- the rest parameter is the one whose Lisp local lives under another (generated) name
+    for a in ast.walk(fa):
+        if isinstance(a, ast.Assign) and P.un(a.targets[0]) == "varg" and isinstance(a.value, ast.Call) and P.un(a.value.func) == "ast.arg":
+            raw = next((P.un(k.value) for k in a.value.keywords if k.arg == "arg"), None)
+            blk = P.block_of(a) or []
+            regs = [c for s in blk for c in P.calls(s) if P.un(c.func).endswith("symbol_table.new_symbol") or P.un(c.func).endswith("symbol_table.new_python_name")]
+            known = any(any(P.un(x) == raw for x in c.args) for c in regs)
+            fresh = any(isinstance(x, ast.Assign) and P.un(x.targets[0]) == raw and isinstance(x.value, ast.Call) and P.un(x.value.func) == "genname"
+                        and not any(isinstance(i, ast.If) and "should_generate_safe_names" in P.un(i.test) and "is_variadic" not in P.un(i.test) for i in P.ancestors(x)) for x in ast.walk(fa)) and always_fresh
+            ok = known or fresh
+            ctx.ob("C10.R7", f"{GEN}::__fn_args_to_py_ast::the Python name of the rest parameter is known to the symbol table", GEN, a.lineno, ok,
+                   "" if ok else f"the rest parameter is declared as `*{raw}` but only the generated local holding the rest seq is registered: the direct-link guard does not see `{raw}`, so a qualified reference to a Var of that name reads the parameter",
+                   witness="(def xs 1) (defn f [& xs] my.ns/xs) (f 1 2) => (1 2)")
     # (A) the bare-name return is guarded by a symbol-table test on the same name
     g = CFG(dl)
     bare = [nd for nd in g.nodes if nd.kind == "stmt" and isinstance(nd.ast, ast.Return) and nd.ast.value is not None
@@ -554,6 +569,8 @@ def r11_refer_filters_only_filter(ctx):
 _GEN_NST ="        with old_st.new_frame(name, is_context_boundary) as st:\n            self._st.append(st)\n            try:\n                yield st\n            finally:\n                self._st.pop()\n"
 
 SELFTEST = [
+    {"name": "the rest parameter's Python name is unknown to the symbol table (the repaired defect)", "file": GEN, "expect": "C10.R7",
+     "old": "            ctx.symbol_table.new_python_name(arg_name)\n", "new": ""},
     {"name": "module global of another namespace emitted without asking the symbol table (the repaired defect)", "file": GEN, "expect": "C10.R7",
      "old": "            if ctx.symbol_table.is_local_python_name(aliased_ns_name):\n                return None\n", "new": ""},
     {"name": "refer :rename drops what is not renamed (the repaired defect)", "file": CORE, "expect": "C10.R11",
